@@ -127,6 +127,13 @@ func vfPlanXfer(seed int64, profile string) vfXfer {
 	for i := 0; i < nB; i++ {
 		x.Streams = append(x.Streams, mk(1))
 	}
+	// C02 speaks about workloads whose in-progress messages fit the receive buffer: with k sending
+	// streams up to k messages (interleaving) can be in progress at once, each is kept below buf/(k+1)
+	for _, pair := range [][2]int{{nA, int(x.B.Buf)}, {nB, int(x.A.Buf)}} {
+		if lim := pair[1]/(pair[0]+1) - 64; pair[0] > 0 && x.MaxLen > lim {
+			x.MaxLen = lim
+		}
+	}
 	return x
 }
 
